@@ -552,11 +552,7 @@ func kfDivZero(v []string, cst []bool) string {
 	if len(v) < 2 {
 		return ""
 	}
-	for i := range v {
-		if _, ok := atoi64(v[i]); cst[i] && !ok {
-			return ""
-		}
-	}
+	// operands are checked left to right: the domain is "a zero divisor is reached before any non-integer"
 	for i := range v {
 		x, ok := atoi64(v[i])
 		if !ok {
@@ -1611,6 +1607,24 @@ func c11Sweep(r *Rng) []Case {
 		add(c11In{"downscale", ds})
 		if x >= 0 {
 			add(c11In{[]string{"bytesize", "bytesizesi"}[j%2], ds})
+		}
+	}
+	// integer folds: the first failing operand decides (left to right, constants and groups alike):
+	// a zero divisor before / after a non-integer, constants only and mixed with groups
+	for _, fn := range []string{"divi", "modi", "sumi", "subi", "multi", "maxi", "mini"} {
+		for _, ops := range [][]string{
+			{"1023", "0", "9", "2", "x", "3"}, {"1023", "x", "0", "3"}, {"1023", "0", "x"}, {"1023", "x", "0"},
+			{"x", "0"}, {"0", "x"}, {"5", "0"}, {"5", "2", "0", "x"}, {"5", "2", "x", "0"}, {"5", "", "0"}, {"5", "0", ""},
+			{"8", "2", "2", "0", "1.5"}, {"8", "2", "1.5", "0"}} {
+			for mode := 0; mode < 4; mode++ { // all constants; all groups; non-integers constant; zeros constant
+				args := make([]c11Arg, len(ops))
+				for k, v := range ops {
+					_, isInt := atoi64(v)
+					c := mode == 0 || (mode == 2 && !isInt) || (mode == 3 && v == "0")
+					args[k] = ka(v, c)
+				}
+				add(c11In{fn, args})
+			}
 		}
 	}
 	// precision bound of round / bytesize / bytesizesi / downscale / percent, both sides
